@@ -3,6 +3,8 @@ import ast
 
 from .. import matrixsem as MS
 from ..algebra import Alg, Uninterpreted, atom, const
+from ..flow import Taint, bindings
+from ..typedispatch import follow
 from ..model import AnalysisError, attr_chain, call_name, stmts_in, walk_no_nested
 
 EXPLANATION = (
@@ -150,45 +152,81 @@ def point_imul(ctx):
     ctx.ob("R02.3", "Point.__imul__[Matrix]", ok, "", fn.lineno, "point *= matrix must store the image (x from x, y from y)")
 
 
+def _copy_of_self(n):
+    return isinstance(n, ast.Call) and ((call_name(n) == "copy" and n.args and isinstance(n.args[0], ast.Name) and n.args[0].id == "self")
+                                        or attr_chain(n.func) == ["self", "__copy__"])
+
+
 def lazy(ctx):
     fn = ctx.fn("Transformable.__imul__", "R02.4")
+    other = fn.args.args[1].arg
     aug = [s for s in ast.walk(fn) if isinstance(s, ast.AugAssign)]
-    ok = len(aug) == 1 and ast.unparse(aug[0].target) == "self.transform" and isinstance(aug[0].op, (ast.Mult, ast.MatMult)) and ast.unparse(aug[0].value) == "other"
+    ok = len(aug) == 1 and attr_chain(aug[0].target) == ["self", "transform"] and isinstance(aug[0].op, (ast.Mult, ast.MatMult)) and isinstance(aug[0].value, ast.Name) and aug[0].value.id == other
     ctx.ob("R02.4", "Transformable.__imul__", ok, "; ".join(ast.unparse(a) for a in aug), fn.lineno,
            "X *= M post-multiplies the pending transform, so (X*A)*B = X*(A*B)")
     fn = ctx.fn("Transformable.__mul__", "R02.4")
-    src = [ast.unparse(s) for s in stmts_in(fn.body)]
-    ctx.ob("R02.4", "Transformable.__mul__", "n = copy(self)" in src and "n *= other" in src and "return n" in src, "; ".join(src)[:160], fn.lineno, "X * M works on a copy")
+    other = fn.args.args[1].arg
+    pth = follow(ctx, "R02.4", fn, {other: "Matrix"})
+    t = Taint(pth.stmts, _copy_of_self, through_containers=False)
+    muls = [x for x in pth.stmts if isinstance(x, ast.AugAssign) and isinstance(x.op, (ast.Mult, ast.MatMult)) and isinstance(x.target, ast.Name) and x.target.id in t.names
+            and isinstance(x.value, ast.Name) and x.value.id == other]
+    ok = bool(muls) and pth.exit == "return" and isinstance(pth.value, ast.Name) and pth.value.id in t.names
+    ctx.ob("R02.4", "Transformable.__mul__", ok, "; ".join(ast.unparse(x)[:50] for x in pth.stmts)[:160], fn.lineno, "X * M works on a copy")
     fn = ctx.fn("Transformable.__abs__", "R02.4")
-    src = [ast.unparse(s) for s in stmts_in(fn.body) if not isinstance(s, ast.Expr) or not isinstance(s.value, ast.Constant)]
-    ctx.ob("R02.4", "Transformable.__abs__", "m = copy(self)" in src and "m.reify()" in src and "return m" in src, "; ".join(src)[:160], fn.lineno, "abs(X) reifies a copy")
+    t = Taint(fn, _copy_of_self, through_containers=False)
+    reifies = [c for c in ast.walk(fn) if isinstance(c, ast.Call) and isinstance(c.func, ast.Attribute) and c.func.attr == "reify" and isinstance(c.func.value, ast.Name) and c.func.value.id in t.names]
+    rets = [r for r in ast.walk(fn) if isinstance(r, ast.Return)]
+    ok = bool(reifies) and bool(rets) and all(isinstance(r.value, ast.Name) and r.value.id in t.names for r in rets)
+    ctx.ob("R02.4", "Transformable.__abs__", ok, "", fn.lineno, "abs(X) reifies a copy")
     # apply-then-reset
-    for qual, target_pred in (("Path.reify", "self._segments"), ("_Polyshape.reify", "self"), ("SimpleLine.reify", None)):
+    for qual, target_pred in (("Path.reify", ["self", "_segments"]), ("_Polyshape.reify", ["self"]), ("SimpleLine.reify", None)):
         fn = ctx.fn(qual, "R02.4")
-        body = [s for s in fn.body if not (isinstance(s, ast.Expr) and isinstance(s.value, ast.Constant))]
-        resets = [i for i, s in enumerate(body) if isinstance(s, ast.Expr) and isinstance(s.value, ast.Call) and isinstance(s.value.func, ast.Attribute) and s.value.func.attr == "reset"]
-        mats = {"self.transform"}
-        for s in body:
-            if isinstance(s, ast.Assign) and ast.unparse(s.value) == "self.transform" and isinstance(s.targets[0], ast.Name):
-                mats.add(s.targets[0].id)
-        applied = []
-        for i, s in enumerate(body):
-            for n in ast.walk(s):
-                if isinstance(n, ast.AugAssign) and isinstance(n.op, ast.Mult) and ast.unparse(n.value) in mats:
-                    applied.append(i)
-        ok = len(resets) == 1 and applied and max(applied) < resets[0] and ast.unparse(body[resets[0]].value.func.value) in mats
+        body = [x for x in fn.body if not (isinstance(x, ast.Expr) and isinstance(x.value, ast.Constant))]
+        mats = set()
+        for tg, v, n in bindings(fn):
+            if isinstance(tg, ast.Name) and attr_chain(v) == ["self", "transform"]:
+                mats.add(tg.id)
+
+        def is_mat(n):
+            return attr_chain(n) == ["self", "transform"] or (isinstance(n, ast.Name) and n.id in mats)
+
+        resets = [c for c in ast.walk(fn) if isinstance(c, ast.Call) and isinstance(c.func, ast.Attribute) and c.func.attr == "reset" and is_mat(c.func.value)]
+        applied = [n for n in ast.walk(fn) if isinstance(n, ast.AugAssign) and isinstance(n.op, ast.Mult) and is_mat(n.value)]
+        top_reset = [x for x in body if isinstance(x, ast.Expr) and any(x.value is c for c in resets)]
+        ok = len(resets) == 1 and len(top_reset) == 1 and bool(applied) and max(a.lineno for a in applied) < resets[0].lineno
+        detail = "applied at lines %s, reset at %s" % ([a.lineno for a in applied], [c.lineno for c in resets])
         if target_pred is not None:
-            loops = [s for s in ast.walk(fn) if isinstance(s, ast.For)]
-            ok = ok and len(loops) == 1 and ast.unparse(loops[0].iter) == target_pred
+            loops = [x for x in ast.walk(fn) if isinstance(x, ast.For)]
+            okl = len(loops) == 1 and (attr_chain(loops[0].iter) == target_pred or (isinstance(loops[0].iter, ast.Name) and loops[0].iter.id == "self" and target_pred == ["self"])) \
+                and isinstance(loops[0].target, ast.Name) and any(isinstance(a.target, ast.Name) and a.target.id == loops[0].target.id and any(a is y for y in ast.walk(loops[0])) for a in applied)
+            ok = ok and okl
         else:
-            # both end points
-            pts = [ast.unparse(s.value) for s in body if isinstance(s, ast.Assign) and call_name(s.value) == "Point"]
-            ok = ok and sorted(pts) == ["Point(self.x1, self.y1)", "Point(self.x2, self.y2)"]
-            stores = {ast.unparse(s.targets[0]): ast.unparse(s.value) for s in body if isinstance(s, ast.Assign) and isinstance(s.targets[0], ast.Attribute)}
-            ok = ok and stores == {"self.x1": "p.x", "self.y1": "p.y", "self.x2": "p.x", "self.y2": "p.y"}
-        calls = [ast.unparse(s.value.func) for s in body if isinstance(s, ast.Expr) and isinstance(s.value, ast.Call)]
+            # both end points: every coordinate attribute is replaced by the matching coordinate of the transformed end point
+            state = {}
+            stores = {}
+            for x in stmts_in(fn.body):
+                if isinstance(x, ast.Assign) and len(x.targets) == 1:
+                    pairs = list(zip(x.targets[0].elts, x.value.elts)) if isinstance(x.targets[0], ast.Tuple) and isinstance(x.value, ast.Tuple) and len(x.targets[0].elts) == len(x.value.elts) else [(x.targets[0], x.value)]
+                    for tg, v in pairs:
+                        if isinstance(tg, ast.Name) and call_name(v) == "Point" and len(v.args) == 2:
+                            a0, a1 = attr_chain(v.args[0]), attr_chain(v.args[1])
+                            state[tg.id] = ("pt", (a0 or ["?"])[-1], (a1 or ["?"])[-1], False)
+                        elif isinstance(tg, ast.Attribute) and attr_chain(tg) and attr_chain(tg)[0] == "self" and isinstance(v, ast.Attribute) and isinstance(v.value, ast.Name) and v.value.id in state:
+                            stores[attr_chain(tg)[1]] = (state[v.value.id], v.attr, x.lineno)
+                elif isinstance(x, ast.AugAssign) and isinstance(x.op, ast.Mult) and isinstance(x.target, ast.Name) and x.target.id in state and is_mat(x.value):
+                    st = state[x.target.id]
+                    state[x.target.id] = (st[0], st[1], st[2], True)
+            want = {"x1": ("x1", "y1", "x"), "y1": ("x1", "y1", "y"), "x2": ("x2", "y2", "x"), "y2": ("x2", "y2", "y")}
+            okp = set(stores) >= set(want)
+            for f, (fx, fy, comp) in want.items():
+                if f in stores:
+                    (kind, sx, sy, done), attr, ln = stores[f]
+                    okp = okp and sx == fx and sy == fy and done and attr == comp and (not resets or ln < resets[0].lineno)
+            ok = ok and okp
+            detail += "; stores %s" % {k: (v[0][1:], v[1]) for k, v in stores.items()}
+        calls = {".".join(attr_chain(c.func) or []) for c in ast.walk(fn) if isinstance(c, ast.Call)}
         ok = ok and "GraphicObject.reify" in calls and "Transformable.reify" in calls
-        ctx.ob("R02.4", qual, ok, "applied at %s, reset at %s" % (applied, resets), fn.lineno,
+        ctx.ob("R02.4", qual, ok, detail[:200], fn.lineno,
                "reify must map every stored point by the pending transform and then (and only then) reset it; stroke width and caches are handled by the base reify calls")
 
 
